@@ -14,16 +14,17 @@ from engine.loader import AnalysisError, src, walk_own
 
 PID = "C19"
 EXPLANATION = (
-    "Provenance analysis of the literal term lists of the local-operator builders and structural checks of the from_edges "
-    "builders. Each operator name is assigned a site by provenance (a, au, ad -> first site; b, bu, bd -> second site; from the "
-    "FermionicOperator labels), each coefficient name a site by the position in its tuple-unpack (mua, mub = mu). A term whose "
-    "operators all belong to one site k must carry the coefficient +-X / coordinations[k] with X that site's coefficient; a "
-    "two-site term must not be divided. In every ham_*_from_edges builder the coordination dict is incremented once for each "
-    "end of each edge before use, and the local builder receives (coordinations[cooa], coordinations[coob]) and the per-site "
-    "factories in the same (a, b) order as the edge key. The edge factory looks up (a, b) then (b, a). The site description "
-    "gives each sorted edge one index name on both ends with directions 0 / 1, and coordination = number of bond indices "
-    "(assigned before the physical index is appended). These are the mechanisms that make each on-site term total exactly its "
-    "coefficient whatever the degree sequence; the operator matrices themselves (C18) are not decided here."
+    "(1) R19.1, symbolic coefficient analysis of the local-operator builders: each builder's body is interpreted with symbolic "
+    "parameters (t, V, mu_a, mu_b, U_a, U_b, z_a, z_b ...), local re-bindings included, so that every term's coefficient becomes a "
+    "normalised product/quotient of symbols; each operator is assigned a site by provenance (FermionicOperator labels). A term whose "
+    "operators all belong to site k must carry +-X_k / z_k with X that site's coefficient; a two-site term must not be divided. A "
+    "refactor that pre-scales the parameters correctly is accepted, one that pre-scales with the wrong coordination is not. (2) "
+    "R19.2-R19.4, abstract evaluation of the from_edges builders, the edge / node factories and the site description on small graphs "
+    "(path, star, triangle, paw, square, single edge; integer, string and tuple site names) with the local builder replaced by a recorder: "
+    "every edge's builder receives (degree of a, degree of b) and the per-site values in the edge's own (a, b) order; dict-valued "
+    "parameters are looked up by (a, b) then (b, a); every bond gets one index name with directions 0 / 1 on its two sorted ends and "
+    "the coordination excludes the physical index. These are the mechanisms that make each on-site term total exactly its coefficient "
+    "whatever the degree sequence; the operator matrices themselves (C18) are not decided here."
 )
 ASSUMPTIONS = ["edges is a list of distinct pairs (simple graph)"]
 
